@@ -644,6 +644,10 @@ def check(prop, tier, seed):
                 'every acyclic flow over 3%s steps x every ordering of up to '
                 '2 legacy derivers' % (' and 4' if tier == 'thorough' else ''))
         validate(rep, prop, scs, scratch)
+        if prop == 'C01':
+            from vv import prop_c06
+            rep.guard(prop_c06.collisions_for, rep, scratch, 3 if tier == 'quick' else 1,
+                      what='colliding port variables')
         if prop == 'C05':
             cyclic_flows(rep)
         if prop == 'C12':
